@@ -1,144 +1,4 @@
-(* GENERATED by tools/py2v_iso.py from pygaps/core/baseisotherm.py and pygaps/core/pointisotherm.py
-   -- do not edit; regenerated on every check run *)
-From Coq Require Import QArith ZArith String List Bool.
-From PG Require Import Lib.Num Lib.Py Gen.UnitsGen1 Units.AdsOracle Gen.UnitsGen2 Iso.IsoState.
-Import ListNotations.
-Open Scope string_scope.
-Section Gen.
-Variable N : Num.
-Local Notation iso := (iso N).
-Local Notation c_pressure := (c_pressure N).
-Local Notation c_loading := (c_loading N).
-Local Notation c_material := (c_material N).
-Local Notation c_temperature := (c_temperature N).
-
-Definition iso_temperature (self : iso) : res N :=
- run (bindc (if (ostr_eqb (temperature_unit self) (Some "K"))
- then Ok (@Return _ Datatypes.unit (raw_temperature self))
- else Ok (Fall tt)) (fun _ =>
- bind (c_temperature (raw_temperature self) (temperature_unit self) (Some "K")) (fun r_1 =>
- Ok (@Return _ Datatypes.unit r_1)))).
-
-Definition convert_temperature (self : iso) (unit_to : option string) (verbose : bool) : sres iso iso :=
- srun self (sbindc (if ((ostr_truthy unit_to) && (ostr_contains (Some "c") (ostr_lower unit_to)))
- then SOk (Fall ((Some "°C")))
- else SOk (Fall (unit_to))) (fun unit_to_1 =>
- sbind self (c_temperature (raw_temperature self) (temperature_unit self) unit_to_1) (fun r_2 =>
- let self_3 := (set_raw_temperature r_2 self) in
- let self_4 := (set_temperature_unit unit_to_1 self_3) in
- SOk (@Return _ Datatypes.unit self_4)))).
-
-Definition convert_pressure (self : iso) (mode_to : option string) (unit_to : option string) (verbose : bool) : sres iso iso :=
- srun self (sbindc (if (negb (ostr_truthy mode_to))
- then SOk (Fall ((pressure_mode self)))
- else SOk (Fall (mode_to))) (fun mode_to_1 =>
- sbindc (if ((negb (ostr_truthy unit_to)) && (ostr_eqb mode_to_1 (pressure_mode self)))
- then SOk (Fall ((pressure_unit self)))
- else SOk (Fall (unit_to))) (fun unit_to_2 =>
- sbindc (if ((ostr_eqb mode_to_1 (pressure_mode self)) && (ostr_eqb unit_to_2 (pressure_unit self)))
- then SOk (@Return _ Datatypes.unit self)
- else SOk (Fall tt)) (fun _ =>
- sbindc (scatch_pg (sbind self (iso_temperature self) (fun t_4 =>
- sbind self (conv_col (fun x_3 => (c_pressure x_3 (pressure_mode self) mode_to_1 (pressure_unit self) unit_to_2 (iso_adsorbate self) (Some t_4))) (col_p self)) (fun col_6 =>
- let self_7 := (set_col_p col_6 self) in
- SOk (Fall (self_7)))))) (fun self_8 =>
- sbindc (if (negb (ostr_eqb mode_to_1 (pressure_mode self_8)))
- then let self_9 := (set_pressure_mode mode_to_1 self_8) in
- SOk (Fall (self_9))
- else SOk (Fall (self_8))) (fun self_10 =>
- sbindc (if ((negb (ostr_eqb unit_to_2 (pressure_unit self_10))) && (ostr_eqb mode_to_1 (Some "absolute")))
- then let self_11 := (set_pressure_unit unit_to_2 self_10) in
- SOk (Fall (self_11))
- else let self_12 := (set_pressure_unit (@None string) self_10) in
- SOk (Fall (self_12))) (fun self_13 =>
- let self_14 := (set_l_interpolator None self_13) in
- let self_15 := (set_p_interpolator None self_14) in
- SOk (@Return _ Datatypes.unit self_15)))))))).
-
-Definition convert_loading (self : iso) (basis_to : option string) (unit_to : option string) (verbose : bool) : sres iso iso :=
- srun self (sbindc (if (negb (ostr_truthy basis_to))
- then SOk (Fall ((loading_basis self)))
- else SOk (Fall (basis_to))) (fun basis_to_1 =>
- sbindc (if ((negb (ostr_truthy unit_to)) && (ostr_eqb basis_to_1 (loading_basis self)))
- then SOk (Fall ((loading_unit self)))
- else SOk (Fall (unit_to))) (fun unit_to_2 =>
- sbindc (if ((ostr_eqb basis_to_1 (loading_basis self)) && (ostr_eqb unit_to_2 (loading_unit self)))
- then SOk (@Return _ Datatypes.unit self)
- else SOk (Fall tt)) (fun _ =>
- sbindc (if (ostr_in (loading_basis self) [(Some "percent"); (Some "fraction")])
- then sbindc (if ((ostr_eqb basis_to_1 (loading_basis self)) && (negb (ostr_eqb unit_to_2 (loading_unit self))))
- then SOk (@Return _ Datatypes.unit self)
- else SOk (Fall tt)) (fun _ =>
- SOk (Fall tt))
- else SOk (Fall tt)) (fun _ =>
- sbind self (iso_temperature self) (fun t_4 =>
- sbind self (conv_col (fun x_3 => (c_loading x_3 (loading_basis self) basis_to_1 (loading_unit self) unit_to_2 (iso_adsorbate self) (Some t_4) (material_basis self) (material_unit self))) (col_l self)) (fun col_6 =>
- let self_7 := (set_col_l col_6 self) in
- sbindc (if (negb (ostr_eqb basis_to_1 (loading_basis self_7)))
- then let self_8 := (set_loading_basis basis_to_1 self_7) in
- SOk (Fall (self_8))
- else SOk (Fall (self_7))) (fun self_9 =>
- sbindc (if (ostr_in basis_to_1 [(Some "percent"); (Some "fraction")])
- then let self_10 := (set_loading_unit (@None string) self_9) in
- SOk (Fall (self_10))
- else let self_11 := (set_loading_unit unit_to_2 self_9) in
- SOk (Fall (self_11))) (fun self_12 =>
- let self_13 := (set_l_interpolator None self_12) in
- let self_14 := (set_p_interpolator None self_13) in
- SOk (@Return _ Datatypes.unit self_14)))))))))).
-
-Definition convert_material (self : iso) (basis_to : option string) (unit_to : option string) (verbose : bool) : sres iso iso :=
- srun self (sbindc (if (negb (ostr_truthy basis_to))
- then SOk (Fall ((material_basis self)))
- else SOk (Fall (basis_to))) (fun basis_to_1 =>
- sbindc (if ((negb (ostr_truthy unit_to)) && (ostr_eqb basis_to_1 (material_basis self)))
- then SOk (Fall ((material_unit self)))
- else SOk (Fall (unit_to))) (fun unit_to_2 =>
- sbindc (if ((ostr_eqb basis_to_1 (material_basis self)) && (ostr_eqb unit_to_2 (material_unit self)))
- then SOk (@Return _ Datatypes.unit self)
- else SOk (Fall tt)) (fun _ =>
- sbindc (if ((ostr_in (loading_basis self) [(Some "percent"); (Some "fraction")]) && (ostr_eqb basis_to_1 (material_basis self)) && (negb (ostr_eqb unit_to_2 (material_unit self))))
- then let self_3 := (set_material_unit unit_to_2 self) in
- SOk (@Return _ (iso) self_3)
- else SOk (Fall (self))) (fun self_4 =>
- sbind self_4 (conv_col (fun x_5 => (c_material x_5 (material_basis self_4) basis_to_1 (material_unit self_4) unit_to_2 (iso_material self_4))) (col_l self_4)) (fun col_7 =>
- sbindc (if (ostr_in (loading_basis self_4) [(Some "percent"); (Some "fraction")])
- then sbindc (if (ostr_eqb basis_to_1 (Some "volume"))
- then SOk (Fall ((Some "volume_liquid")))
- else SOk (Fall (basis_to_1))) (fun _basis_to_8 =>
- sbindc (if (ostr_eqb (material_basis self_4) (Some "volume"))
- then SOk (Fall ((Some "volume_liquid")))
- else SOk (Fall ((material_basis self_4)))) (fun _basis_from_9 =>
- sbind self_4 (iso_temperature self_4) (fun t_11 =>
- sbind self_4 (conv_col (fun x_10 => (c_loading x_10 _basis_from_9 _basis_to_8 (material_unit self_4) unit_to_2 (iso_adsorbate self_4) (Some t_11) (@None string) (@None string))) col_7) (fun col_13 =>
- SOk (Fall (col_13))))))
- else SOk (Fall (col_7))) (fun loading_14 =>
- let self_15 := (set_col_l loading_14 self_4) in
- sbindc (if (negb (ostr_eqb unit_to_2 (material_unit self_15)))
- then let self_16 := (set_material_unit unit_to_2 self_15) in
- SOk (Fall (self_16))
- else SOk (Fall (self_15))) (fun self_17 =>
- sbindc (if (negb (ostr_eqb basis_to_1 (material_basis self_17)))
- then let self_18 := (set_material_basis basis_to_1 self_17) in
- SOk (Fall (self_18))
- else SOk (Fall (self_17))) (fun self_19 =>
- let self_20 := (set_l_interpolator None self_19) in
- let self_21 := (set_p_interpolator None self_20) in
- SOk (@Return _ Datatypes.unit self_21)))))))))).
-
-Definition convert (self : iso) (pressure_mode : option string) (pressure_unit : option string) (loading_basis : option string) (loading_unit : option string) (material_basis : option string) (material_unit : option string) (verbose : bool) : sres iso iso :=
- srun self (sbindc (if ((ostr_truthy pressure_mode) || (ostr_truthy pressure_unit))
- then mbind (convert_pressure self pressure_mode pressure_unit verbose) (fun self_1 =>
- SOk (Fall (self_1)))
- else SOk (Fall (self))) (fun self_2 =>
- sbindc (if ((ostr_truthy material_basis) || (ostr_truthy material_unit))
- then mbind (convert_material self_2 material_basis material_unit verbose) (fun self_3 =>
- SOk (Fall (self_3)))
- else SOk (Fall (self_2))) (fun self_4 =>
- sbindc (if ((ostr_truthy loading_basis) || (ostr_truthy loading_unit))
- then mbind (convert_loading self_4 loading_basis loading_unit verbose) (fun self_5 =>
- SOk (Fall (self_5)))
- else SOk (Fall (self_4))) (fun self_6 =>
- SOk (@Return _ Datatypes.unit self_6))))).
-
-End Gen.
+(* translator py2v_iso FAILED on the current source:
+py2v_iso: UNSUPPORTED: Unsupported: IfExp(test=Compare(left=Name(id='mode_to', ctx=Load()), ops=[Eq()], comparators=[Constant(value='absolute')]), body=Name(id='unit_to', ctx=Load()), orelse=Constant(value=None))
+*)
+Translator_failed_closed.
